@@ -73,3 +73,35 @@ func init() {
 		return res
 	}
 }
+
+func init() {
+	boundedChecks["bsc.inturn"] = func(tier string, seed int, overlay map[string][]byte) BoundedResult {
+		t0 := time.Now()
+		n := 300
+		if tier == "thorough" {
+			n = 6000
+		}
+		res := BoundedResult{Name: "bsc.inturn", Bound: fmt.Sprintf("%d seeded random validator sets of 1..21 members (every fifth with addresses differing only in the last two bytes), 8 block numbers each (3 structured, 5 random): the real snapshot.inturn against an independent count of smaller addresses, exactly one validator in turn; the real ParseValidators against the listed 20-byte groups; seed %d", n, seed)}
+		out, runErr := runOverlayGoTest("modules/tibc/light-clients/08-bsc/types", "bsc_inturn_test.go.txt", "zz_inturn_bounded_test.go", "TestZZBscInturn",
+			[]string{fmt.Sprintf("ZZ_N=%d", n), fmt.Sprintf("ZZ_SEED=%d", seed+1)}, overlay, nil)
+		seen := false
+		for _, l := range strings.Split(out, "\n") {
+			switch {
+			case strings.HasPrefix(l, "TURNCASES "):
+				fmt.Sscanf(l, "TURNCASES %d", &res.Cases)
+				seen = true
+			case strings.HasPrefix(l, "TURNVIOL "):
+				rest := strings.TrimPrefix(l, "TURNVIOL ")
+				res.Violations = append(res.Violations, BoundedViolation{Key: strings.SplitN(rest, " ", 2)[0], Detail: "bounded check bsc.inturn (real code):\n  " + rest + "\n"})
+			}
+		}
+		if !seen {
+			if len(out) > 3000 {
+				out = out[len(out)-3000:]
+			}
+			res.Violations = append(res.Violations, BoundedViolation{Key: "harness", Detail: fmt.Sprintf("the bounded test did not run to completion (%v):\n%s", runErr, out)})
+		}
+		res.WallS = time.Since(t0).Seconds()
+		return res
+	}
+}
